@@ -309,8 +309,38 @@ class Driver:
         if dc:
             self.V(f'copy-malformed:{type(x).__name__}', f'{name}.copy(): ' + '; '.join(dc[:3]))
             return
-        # independence: mutate the copy in every way we can, the original must not move
+        # the two converting constructors: a FactorGraph made from a Graph / an FGG made from an HRG carries the same
+        # nodes, edges, external nodes resp. start, labels and rules (and nothing else yet)
         f = self.f
+        if type(x).__name__ == 'Graph' and hasattr(f.FactorGraph, 'from_graph'):
+            try:
+                fg = f.FactorGraph.from_graph(x)
+            except Exception as e:
+                self.V(f'from_graph-raises:{type(e).__name__}', f'FactorGraph.from_graph({name}) raised {type(e).__name__}: {str(e)[:200]}')
+                fg = None
+            if fg is not None:
+                self.obs_from = getattr(self, 'obs_from', 0) + 1
+                a, b = GI.snap_graph(fg), GI.snap_graph(x)
+                diff = [k for k in ('nodes', 'edges', 'ext', 'type') if sorted(map(repr, a[k])) != sorted(map(repr, b[k]))] if True else []
+                if diff or tuple(a['ext']) != tuple(b['ext']):
+                    self.V('from_graph-differs', f'FactorGraph.from_graph({name}) differs from the graph in {diff or ["ext order"]}')
+                elif GI.defects(fg):
+                    self.V('from_graph-malformed', '; '.join(GI.defects(fg)[:3]))
+                elif fg.domains or fg.factors:
+                    self.V('from_graph-differs', 'FactorGraph.from_graph invented domains or factors')
+        if type(x).__name__ == 'HRG' and getattr(x, '_start', None) is not None and hasattr(f.FGG, 'from_hrg'):
+            try:
+                fg = f.FGG.from_hrg(x)
+            except Exception as e:
+                self.V(f'from_hrg-raises:{type(e).__name__}', f'FGG.from_hrg({name}) raised {type(e).__name__}: {str(e)[:200]}')
+                fg = None
+            if fg is not None:
+                self.obs_from = getattr(self, 'obs_from', 0) + 1
+                a, b = GI.snap(fg), GI.snap(x)
+                diff = [k for k in ('start', 'node_labels', 'edge_labels', 'nonterminals', 'terminals', 'rules') if a.get(k) != b.get(k)]
+                if diff:
+                    self.V('from_hrg-differs', f'FGG.from_hrg({name}) differs from the grammar in {diff}')
+        # independence: mutate the copy in every way we can, the original must not move
         kind = type(x).__name__
         try:
             if kind in ('Graph', 'FactorGraph'):
